@@ -12,7 +12,9 @@ INTS = [0, 1, -1, 2, 3, 7, 10, -7, 2 ** 53, 2 ** 53 + 1, 2 ** 63, -(2 ** 63) - 1
 DECS = [0.0, 1.0, -1.0, 2.0, 0.5, 2.5, -7.0, 0.1, 9007199254740992.0, 1e20, 1.5e-7, 3.0, 10.0]
 STRS = ["", "a", "b", "ab", "a b", "a'", "'", "A", "abc", "é", "a\tb", "1", "10", "\\"]
 DATES = [datetime.datetime(2020, 1, 1), datetime.datetime(1999, 12, 31, 23, 59, 59), datetime.datetime(2020, 1, 1, 0, 0, 1),
-         datetime.datetime(1900, 1, 1)]
+         datetime.datetime(1900, 1, 1),
+         # before the first day that has a day number: still dates, still ordered chronologically
+         datetime.datetime(1850, 6, 1), datetime.datetime(1800, 7, 1), datetime.datetime(1899, 12, 31, 23, 59, 59)]
 PATS = ["a", "a.*", "[0-9]+"]
 
 
